@@ -66,6 +66,13 @@ void GlobalGraph::edgeMustExist_(const GlobalGraph::Edge& edge, string name) con
 
 GlobalGraph::Edge GlobalGraph::link(Graph::NodeId nodeA, Graph::NodeId nodeB)
 {
+  {
+    // the node structure holds one edge per (ordered) pair of nodes: a second one would only reach the edge structure
+    nodeStructureType::const_iterator rowA = nodeStructure_.find(nodeA);
+    if (rowA != nodeStructure_.end() && rowA->second.first.find(nodeB) != rowA->second.first.end())
+      throw Exception("GlobalGraph::link : nodes " + TextTools::toString(nodeA) + " and " + TextTools::toString(nodeB) + " are already linked.");
+  }
+
   // which ID is available?
   GlobalGraph::Edge edgeID = highestEdgeID_++;
 
@@ -83,6 +90,12 @@ void GlobalGraph::link(Graph::NodeId nodeA, Graph::NodeId nodeB, GlobalGraph::Ed
 {
   if (edgeStructure_.find(edgeID) != edgeStructure_.end())
     throw Exception("GlobalGraph::link : already existing edgeId " + TextTools::toString(edgeID));
+  {
+    // the node structure holds one edge per (ordered) pair of nodes: a second one would only reach the edge structure
+    nodeStructureType::const_iterator rowA = nodeStructure_.find(nodeA);
+    if (rowA != nodeStructure_.end() && rowA->second.first.find(nodeB) != rowA->second.first.end())
+      throw Exception("GlobalGraph::link : nodes " + TextTools::toString(nodeA) + " and " + TextTools::toString(nodeB) + " are already linked.");
+  }
 
   // writing the new relation to the structure
   linkInNodeStructure_(nodeA, nodeB, edgeID);
